@@ -140,12 +140,21 @@ func vc13Body(s *vc13Slot, ver, fill int, flavor string, pad int) (b []byte) {
 	}
 	hosts = append(hosts, vc13Last(s.name, ver))
 
+	// The padding stands after the first marker and the probe hosts, so that
+	// a body that is cut anywhere in it still shows its first marker and not
+	// its last one.  There is no newline after the last line, so that a body
+	// that lacks its last octet lacks a part of its last marker.
+	const padAt = 1 + vc13ProbeHosts
+
 	sb := &strings.Builder{}
 	switch s.kind {
 	case vc13KindRule:
 		fmt.Fprintf(sb, "! vc13 list %s version %d\n", s.name, ver)
-		vc13PadLines(sb, "! ", pad)
 		for i, h := range hosts {
+			if i == padAt {
+				vc13PadLines(sb, "! ", pad)
+			}
+
 			if flavor == "junk" && i == len(hosts)/2 {
 				sb.WriteString(vc13Junk)
 			}
@@ -154,8 +163,11 @@ func vc13Body(s *vc13Slot, ver, fill int, flavor string, pad int) (b []byte) {
 		}
 	case vc13KindSS:
 		fmt.Fprintf(sb, "! vc13 list %s version %d\n", s.name, ver)
-		vc13PadLines(sb, "! ", pad)
 		for i, h := range hosts {
+			if i == padAt {
+				vc13PadLines(sb, "! ", pad)
+			}
+
 			if flavor == "junk" && i == len(hosts)/2 {
 				sb.WriteString(vc13Junk)
 			}
@@ -164,9 +176,12 @@ func vc13Body(s *vc13Slot, ver, fill int, flavor string, pad int) (b []byte) {
 		}
 	case vc13KindHash:
 		fmt.Fprintf(sb, "# vc13 list %s version %d\n", s.name, ver)
-		vc13PadLines(sb, "# ", pad)
 		for i, h := range hosts {
-			if flavor == "longline" && i == len(hosts)/2 {
+			if i == padAt {
+				vc13PadLines(sb, "# ", pad)
+			}
+
+			if flavor == "longline" && i == max(len(hosts)/2, padAt) {
 				// Longer than the token limit of bufio.Scanner.
 				sb.WriteString(strings.Repeat("x", vc13LongLine))
 				sb.WriteString(".test\n")
@@ -180,7 +195,7 @@ func vc13Body(s *vc13Slot, ver, fill int, flavor string, pad int) (b []byte) {
 		panic("vc13: bad slot kind")
 	}
 
-	return []byte(sb.String())
+	return []byte(strings.TrimSuffix(sb.String(), "\n"))
 }
 
 // vc13LongLine is the length of the over-long line of a hash list; it is above
@@ -525,10 +540,19 @@ func vc13NewUnits(
 	timeout time.Duration,
 	cacheOn bool,
 	hashMax int,
-	idxURL string,
+	srcURLs map[string]string,
+	limits map[string]int,
 ) (u *vc13Units, err error) {
+	// A target may also come from a hostless file URI: the rule-list index
+	// (see FILTER_INDEX_URL), the service index and the hash lists accept
+	// one; srcURLs maps the path of such a target to its URI.
 	mustURL := func(p string) (res *url.URL) {
-		res, perr := url.Parse(base + p)
+		s := base + p
+		if srcURLs[p] != "" {
+			s = srcURLs[p]
+		}
+
+		res, perr := url.Parse(s)
 		if perr != nil {
 			panic(perr)
 		}
@@ -541,17 +565,17 @@ func vc13NewUnits(
 		count = 100
 	)
 
-	// The rule-list index may also come from a hostless file URI, which is
-	// the second documented source of it (see FILTER_INDEX_URL).
 	idxU := mustURL(vc13IdxPath)
-	if idxURL != "" {
-		idxU, err = url.Parse(idxURL)
-		if err != nil {
-			return nil, fmt.Errorf("index url: %w", err)
-		}
-	}
 
-	limit := func(path string) (l datasize.ByteSize) { return datasize.ByteSize(vc13LimitOf(path, hashMax)) }
+	// limits, if it has the path, overrides the size limit of a target (a
+	// restart with a lowered max_size).
+	limit := func(path string) (l datasize.ByteSize) {
+		if v, ok := limits[path]; ok {
+			return datasize.ByteSize(v)
+		}
+
+		return datasize.ByteSize(vc13LimitOf(path, hashMax))
+	}
 	logger := slogutil.NewDiscardLogger()
 
 	u = &vc13Units{hashes: map[string]*hashprefix.Filter{}}
@@ -624,7 +648,7 @@ func vc13NewUnits(
 		RuleLists: &filterstorage.ConfigRuleLists{
 			IndexURL:            idxU,
 			IndexMaxSize:        limit(vc13IdxPath),
-			MaxSize:             limit("/rl/any"),
+			MaxSize:             limit("/rl/"),
 			IndexRefreshTimeout: timeout,
 			IndexStaleness:      stale,
 			RefreshTimeout:      timeout,
